@@ -6,7 +6,7 @@
    Literal tables (tie base names, constant spellings, parity list) come from the regenerated Gen_fastv.v. *)
 From Coq Require Import Ascii.
 From stdpp Require Import strings gmap sets pretty.
-From CG Require Export Types Api.
+From CG Require Export Types Api Oracle.
 From CG Require Import Gen.Gen_fastv.
 Open Scope string_scope.
 
@@ -265,3 +265,17 @@ Definition in_subset (a : ast) (bbs : list bbdef) : bool :=
   bool_decide ((list_to_set use : gset string) ⊆ list_to_set drv ∪ list_to_set ins) &&      (* no floating net *)
   bool_decide (NoDup (a_ports a)) &&
   bool_decide ((list_to_set (a_ports a) : gset string) = list_to_set ins ∪ list_to_set outs).
+
+(* ---------------------------------------------------------------- oracle helper (specification side, used by Run_C14.holds) *)
+(* same function at every output and blackbox input pin: exhaustive over the free nodes (at most 8), with the
+   consistency certificate of evalc on both sides; soundness: Proofs/FastVerilogProofs.same_function_sound *)
+Definition same_function (Cf Cl : Circuit) : bool :=
+  let free := elements (free_nodes (c_g Cf)) in
+  let obs := elements (endpoints (c_g Cf)) in
+  bool_decide (free_nodes (c_g Cf) = free_nodes (c_g Cl)) && bool_decide (endpoints (c_g Cf) = endpoints (c_g Cl)) &&
+  (if (length free <=? 8)%nat && acyclicb (c_g Cf) && acyclicb (c_g Cl) && closedb (c_g Cf) && closedb (c_g Cl) then
+     forallb (λ a, let vf := evalc (c_g Cf) a in let vl := evalc (c_g Cl) a in
+                   consistentb (c_g Cf) vf && consistentb (c_g Cl) vl && eq_on obs vf vl) (all_vals free)
+   else true).
+Definition same_function_decided (Cf Cl : Circuit) : bool :=
+  (length (elements (free_nodes (c_g Cf))) <=? 8)%nat && acyclicb (c_g Cf) && acyclicb (c_g Cl) && closedb (c_g Cf) && closedb (c_g Cl).
